@@ -3,6 +3,7 @@ use crate::report::Report;
 use crate::Ctx;
 
 pub mod c01;
+pub mod c02;
 pub mod c03;
 pub mod c04;
 pub mod c05;
@@ -14,6 +15,7 @@ pub mod c11;
 pub mod c12;
 pub mod c13;
 pub mod c14;
+pub mod c16;
 pub mod c17;
 pub mod c18;
 pub mod c19;
@@ -22,6 +24,7 @@ pub mod hist;
 pub fn run(id: &str, ctx: &Ctx) -> Option<Report> {
     Some(match id {
         "C01" => c01::run(ctx),
+        "C02" => c02::run(ctx),
         "C03" => c03::run(ctx),
         "C04" => c04::run(ctx),
         "C05" => c05::run(ctx),
@@ -33,6 +36,7 @@ pub fn run(id: &str, ctx: &Ctx) -> Option<Report> {
         "C12" => c12::run(ctx),
         "C13" => c13::run(ctx),
         "C14" => c14::run(ctx),
+        "C16" => c16::run(ctx),
         "C17" => c17::run(ctx),
         "C18" => c18::run(ctx),
         "C19" => c19::run(ctx),
